@@ -84,9 +84,10 @@ def discharge(ob, axioms, timeout_ms=None, use_cvc5=True, seed=0):
     # obligations (float ranges, rounding bounds) are then pure QF_NIRA and z3 uses nlsat.
     qf_ax = [a for a in axioms if not _has_quant(a)]
     qf_pc = [p for p in ob.pc if not _has_quant(p)]
-    if (len(qf_ax) != len(axioms) or len(qf_pc) != len(ob.pc)) and not _has_quant(ob.goal):
+    if (len(qf_ax) != len(axioms) or len(qf_pc) != len(ob.pc)) and not _has_quant(ob.goal) \
+            and ob.kind in ("float-range", "lemma", "escape", "exc-justified", "exc-missed"):
         s0 = z3.Solver()
-        s0.set("timeout", min(FAST_MS, timeout_ms))
+        s0.set("timeout", min(1500, timeout_ms))
         s0.set("random_seed", seed)
         for a in qf_ax + qf_pc:
             s0.add(a)
